@@ -760,6 +760,10 @@ func (g *gen) annotate(m *Message, fq string, c *fieldCtx) {
 	}
 }
 
+func is64(k Kind) bool {
+	return k == KInt64 || k == KUint64 || k == KSint64 || k == KFixed64 || k == KSfixed64
+}
+
 // emptyCapableMessage returns a message type for empty_behavior fields.
 func (g *gen) emptyCapableMessage() string {
 	if cands := g.childCandidates(); len(cands) > 0 && g.bool("reuseempty") {
@@ -960,6 +964,10 @@ func (g *gen) buildMethod(f *File, s *Service, m *Method, usedRoutes map[string]
 				k = KString
 			}
 			fl := &Field{Name: g.fieldName(rc.used, true), Number: g.nextNum(rc), Kind: k, Card: Singular}
+			if !bodyVerb && p.feat("int64") && is64(k) && g.oneIn(3, "pathi64num") {
+				fl.EnsureAnn().Int64Encoding = 2
+				g.tagf("path_var:int64_number")
+			}
 			pathVars = append(pathVars, fl)
 			req.Fields = append(req.Fields, fl)
 			g.tagf("path_var:%s", k)
@@ -1029,6 +1037,12 @@ func (g *gen) buildMethod(f *File, s *Service, m *Method, usedRoutes map[string]
 			q.Required = false
 		}
 		fl.EnsureAnn().Query = q
+		// a URL-bound 64-bit field may also carry int64_encoding=NUMBER (bodiless verbs only: the request
+		// message has no other codec feature there)
+		if !bodyVerb && fl.Card == Singular && p.feat("int64") && is64(k) && g.oneIn(3, "queryi64num") {
+			fl.Ann.Int64Encoding = 2
+			g.tagf("query:int64_number")
+		}
 		req.Fields = append(req.Fields, fl)
 		g.tagf("query:%s", k)
 	}
